@@ -10,6 +10,12 @@ NOTE = ("Trusted: Lean 4.33 kernel; axioms propext/Classical.choice/Quot.sound o
         "-O2 build (thorough: also -O0 and -march=native, all alignments). Constants and README tables are regenerated from "
         "/repo on every run (tools/gen.py). Clauses not yet carried by a theorem are listed in the evidence under not_yet_proved.")
 CLAIMED = {
+ "C17": ("PARTIAL. Theorem (schedule_independence): for any number of threads, any step functions that read only their "
+         "footprint and write only what they own, disjoint writable regions nobody else reads, and EVERY interleaving, a thread's "
+         "local state and everything it can see (all of its output) equal what it computes alone; the regenerated list of "
+         "writable statics is empty. The premise and race freedom on the real machine are observed: 16 threads over shared "
+         "inputs and private outputs under ThreadSanitizer, every result compared with the call made alone",
+         "Lean 4 proof (all schedules of an abstract shared-memory machine) + ThreadSanitizer differential run (partial)"),
  "C15": ("PARTIAL. Theorems: the regenerated list of writable statics of the library is empty; the only caller-supplied "
          "possibly-uninitialised structure the encoders read (varintFORMeta) does not influence the result unless it claims to be "
          "an analysis of the same count, and the adaptive layer's zeroed struct never does. The correspondence runs every "
